@@ -5,6 +5,7 @@
 -/
 import KestrelModel.File
 import KestrelProofs.Chunks
+import KestrelProofs.File
 namespace Kestrel.EncIO
 open Kestrel
 
@@ -1074,5 +1075,598 @@ theorem serialize_nonces (A : Aead) (key aad : Bytes) (cf : Nat → Bytes) : ∀
       · simp only [serCalls, List.map_cons, h3]
       · simp only [serCalls, List.map_cons, h4]
         simp [List.replicate_succ]
+
+/-! ### (e) read/write interleaving: the per-record trace of a run -/
+
+/-- `ps` is what a run that may stop early — possibly inside a record — has written of the records `recs`:
+    whole records, then at most one proper piece. -/
+def Pieces : List Bytes → List Bytes → Prop
+  | [], _ => True
+  | _ :: _, [] => False
+  | p :: ps, r :: rs => (p = r ∧ Pieces ps rs) ∨ (p <+: r ∧ ps = [])
+
+theorem Pieces.flatten_prefix : ∀ (ps recs : List Bytes), Pieces ps recs → ps.flatten <+: recs.flatten := by
+  intro ps
+  induction ps with
+  | nil => intro _ _; exact List.nil_prefix
+  | cons p ps ih =>
+    intro recs h
+    cases recs with
+    | nil => exact absurd h (by simp [Pieces])
+    | cons r rs =>
+      simp only [Pieces] at h
+      rcases h with ⟨h1, h2⟩ | ⟨h1, h2⟩
+      · subst h1
+        simp only [List.flatten_cons]
+        exact (List.prefix_append_right_inj _).mpr (ih rs h2)
+      · subst h2
+        simp only [List.flatten_cons, List.flatten_nil, List.append_nil]
+        exact List.IsPrefix.trans h1 (List.prefix_append _ _)
+
+theorem Pieces.length_le : ∀ (ps recs : List Bytes), Pieces ps recs → ps.length ≤ recs.length := by
+  intro ps
+  induction ps with
+  | nil => intro _ _; simp
+  | cons p ps ih =>
+    intro recs h
+    cases recs with
+    | nil => exact absurd h (by simp [Pieces])
+    | cons r rs =>
+      simp only [Pieces] at h
+      rcases h with ⟨_, h2⟩ | ⟨_, h2⟩
+      · have := ih rs h2; simp; omega
+      · subst h2; simp
+
+/-- piece `i` of a trace is a prefix of record `i` -/
+theorem Pieces.get : ∀ (ps recs : List Bytes), Pieces ps recs → ∀ (i : Nat) (h : i < ps.length) (h' : i < recs.length),
+    ps[i] <+: recs[i] := by
+  intro ps
+  induction ps with
+  | nil => intro _ _ i h; simp at h
+  | cons p ps ih =>
+    intro recs hp i h h'
+    cases recs with
+    | nil => simp at h'
+    | cons r rs =>
+      simp only [Pieces] at hp
+      cases i with
+      | zero =>
+        rcases hp with ⟨h1, _⟩ | ⟨h1, _⟩
+        · subst h1; exact List.prefix_refl _
+        · exact h1
+      | succ i =>
+        rcases hp with ⟨_, h2⟩ | ⟨_, h2⟩
+        · exact ih rs h2 i (by simpa using h) (by simpa using h')
+        · subst h2; simp at h
+
+/-- the log segment of record `i₀ + i` carries the stamp `st (i₀ + i)` (source position, number of `read()` calls
+    made) and accounts for exactly the bytes of piece `i` -/
+def Stamped (st : Nat → Nat × Nat) : Nat → List (List WLog) → List Bytes → Prop
+  | _, [], [] => True
+  | _, [], _ :: _ => False
+  | _, _ :: _, [] => False
+  | i, seg :: segs, p :: ps =>
+    (∀ e ∈ seg, e.srcPos = (st i).1 ∧ e.srcReads = (st i).2) ∧ (seg.map (·.n)).sum = p.length ∧ Stamped st (i+1) segs ps
+
+theorem Stamped.shift {st st' : Nat → Nat × Nat} (hst : ∀ j, st' j = st (j+1)) :
+    ∀ (segs : List (List WLog)) (ps : List Bytes) (i : Nat), Stamped st' i segs ps → Stamped st (i+1) segs ps := by
+  intro segs
+  induction segs with
+  | nil =>
+    intro ps i h
+    cases ps with
+    | nil => trivial
+    | cons _ _ => simp [Stamped] at h
+  | cons seg segs ih =>
+    intro ps i h
+    cases ps with
+    | nil => simp [Stamped] at h
+    | cons p ps =>
+      simp only [Stamped] at h ⊢
+      exact ⟨by rw [← hst]; exact h.1, h.2.1, ih ps (i+1) h.2.2⟩
+
+theorem Stamped.length_eq {st : Nat → Nat × Nat} : ∀ (segs : List (List WLog)) (ps : List Bytes) (i : Nat),
+    Stamped st i segs ps → segs.length = ps.length := by
+  intro segs
+  induction segs with
+  | nil => intro ps i h; cases ps <;> simp [Stamped] at h ⊢
+  | cons seg segs ih =>
+    intro ps i h
+    cases ps with
+    | nil => simp [Stamped] at h
+    | cons p ps => simp only [Stamped] at h; simp [ih ps (i+1) h.2.2]
+
+theorem Stamped.get {st : Nat → Nat × Nat} : ∀ (segs : List (List WLog)) (ps : List Bytes) (i0 : Nat),
+    Stamped st i0 segs ps → ∀ (i : Nat) (h : i < segs.length) (h' : i < ps.length),
+      (∀ e ∈ segs[i], e.srcPos = (st (i0 + i)).1 ∧ e.srcReads = (st (i0 + i)).2) ∧
+      ((segs[i]).map (·.n)).sum = (ps[i]).length := by
+  intro segs
+  induction segs with
+  | nil => intro _ _ _ i h; simp at h
+  | cons seg segs ih =>
+    intro ps i0 hst i h h'
+    cases ps with
+    | nil => simp at h'
+    | cons p ps =>
+      simp only [Stamped] at hst
+      cases i with
+      | zero => exact ⟨hst.1, hst.2.1⟩
+      | succ i =>
+        have := ih ps (i0+1) hst.2.2 i (by simpa using h) (by simpa using h')
+        simpa [Nat.add_assoc, Nat.add_comm 1 i] using this
+
+/-- between two consecutive records at most two reads' worth of plaintext is in flight -/
+theorem take_flatten_window (cs : Nat) : ∀ (reads : List Bytes) (i : Nat), (∀ r ∈ reads, r.length ≤ cs) →
+    ((reads.take (i+2)).flatten).length ≤ ((reads.take i).flatten).length + 2 * cs := by
+  intro reads
+  induction reads with
+  | nil => intro i _; simp
+  | cons a rs ih =>
+    intro i hle
+    have ha : a.length ≤ cs := hle a (by simp)
+    cases i with
+    | zero =>
+      cases rs with
+      | nil => simp; omega
+      | cons b rs' =>
+        have hb : b.length ≤ cs := hle b (by simp)
+        simp; omega
+    | succ i =>
+      have := ih i (fun r hr => hle r (by simp [hr]))
+      simp only [List.take_succ_cons, List.flatten_cons, List.length_append]
+      omega
+
+section trace
+variable (A : Aead) (key aad : Bytes) (cs : Nat)
+
+/-- **(e), loop invariant.** A run of the chunk loop decomposes into per-record pieces and log segments:
+    the pieces are the pure level's records (the final one possibly cut short by a sink fault), all of them on
+    success; and every log entry of the iteration that started at source state `s` after `j` earlier iterations is
+    stamped with `s.nreads + j + 1` reads and the source position after those reads. -/
+theorem encLoopIO_trace : ∀ (fuel ctr : Nat) (prev : Bytes) (done : Bool) (s : Src) (k : Snk) (f2 : Nat),
+    s.inp.length + s.script.length + 1 ≤ f2 →
+    ∃ (segs : List (List WLog)) (ps : List Bytes),
+      (encLoopIO A key aad cs fuel ctr prev done s k).2.2.out = k.out ++ ps.flatten ∧
+      (encLoopIO A key aad cs fuel ctr prev done s k).2.2.log = segs.reverse.flatten ++ k.log ∧
+      Pieces ps ((encCalls ctr prev done (Src.readsOf cs f2 s)).map (recordOf A key aad)) ∧
+      ((encLoopIO A key aad cs fuel ctr prev done s k).1 = .ok →
+        ps = (encCalls ctr prev done (Src.readsOf cs f2 s)).map (recordOf A key aad)) ∧
+      Stamped (fun j => (s.pos + (((Src.readsOf cs f2 s).take (j+1)).flatten).length, s.nreads + j + 1)) 0 segs ps := by
+  intro fuel
+  induction fuel with
+  | zero => intro _ _ _ _ k _ _; exact ⟨[], [], by simp [encLoopIO], by simp [encLoopIO], trivial, by simp [encLoopIO], trivial⟩
+  | succ fuel ih =>
+    intro ctr prev done s k f2 hf2
+    obtain ⟨f2, rfl⟩ : ∃ g, f2 = g + 1 := ⟨f2 - 1, by omega⟩
+    cases hread : s.read cs with
+    | mk rr s' =>
+      cases rr with
+      | err => rw [encLoopIO_err A key aad cs hread]; exact ⟨[], [], by simp, by simp, trivial, by simp, trivial⟩
+      | interrupted => rw [encLoopIO_int A key aad cs hread]; exact ⟨[], [], by simp, by simp, trivial, by simp, trivial⟩
+      | got r =>
+        obtain ⟨j, _, _, _, _, hnr, hpos, _⟩ := read_got hread
+        by_cases hr : r.length = 0
+        · rw [encLoopIO_last A key aad cs hread hr, readsOf_got_nil cs hread hr]
+          obtain ⟨p, hst, hp, hok⟩ := recW_step A key aad ctr true prev s' k
+          obtain ⟨new, hlog, hat, hsum⟩ := hst.log
+          have hcalls : (encCalls ctr prev done [r]).map (recordOf A key aad) = [record A key aad (be64 ctr) ctr true prev] := by
+            simp [encCalls, hr, recordOf]
+          rw [hcalls]
+          refine ⟨[new], [p], by simp [hst.out], by simp [hlog], Or.inr ⟨hp, rfl⟩, ?_, ?_⟩
+          · cases h : (recW A key aad ctr true prev s' k).1
+            · simp
+            · intro _; rw [hok h]
+          · refine ⟨fun e he => ?_, hsum, trivial⟩
+            have := hat e he
+            simp only at this ⊢
+            rw [this.1, this.2, hpos, hnr]
+            simp
+        · rw [readsOf_got_cons cs hread hr]
+          cases done with
+          | true =>
+            rw [encLoopIO_unexp A key aad cs hread hr]
+            exact ⟨[], [], by simp, by simp, trivial, by simp, trivial⟩
+          | false =>
+            have hb : (r.length == 0) = false := by simpa using hr
+            have hcalls : (encCalls ctr prev false (r :: Src.readsOf cs f2 s')).map (recordOf A key aad) =
+                record A key aad (be64 ctr) ctr false prev ::
+                  (encCalls (ctr+1) r false (Src.readsOf cs f2 s')).map (recordOf A key aad) := by
+              simp [encCalls, hr, hb, recordOf]
+            rw [encLoopIO_more A key aad cs hread hr, hcalls]
+            obtain ⟨p, hst, hp, hok⟩ := recW_step A key aad ctr false prev s' k
+            obtain ⟨new, hlog, hat, hsum⟩ := hst.log
+            have hstamp : ∀ e ∈ new, e.srcPos = s.pos + (((r :: Src.readsOf cs f2 s').take (0+1)).flatten).length ∧
+                e.srcReads = s.nreads + 0 + 1 := by
+              intro e he
+              have := hat e he
+              simp only at this
+              rw [this.1, this.2, hpos, hnr]
+              simp
+            cases h : (recW A key aad ctr false prev s' k).1
+            · simp only [Bool.false_eq_true, if_false]
+              exact ⟨[new], [p], by simp [hst.out], by simp [hlog], Or.inr ⟨hp, rfl⟩, by simp, ⟨hstamp, hsum, trivial⟩⟩
+            · simp only [if_true]
+              have hm := read_got_measure hread hr
+              obtain ⟨segs, ps, h1, h2, h3, h4, h5⟩ :=
+                ih (ctr+1) r false s' (recW A key aad ctr false prev s' k).2 f2 (by omega)
+              have hpe := hok h
+              refine ⟨new :: segs, p :: ps, ?_, ?_, Or.inl ⟨hpe, h3⟩, ?_, ⟨hstamp, hsum, ?_⟩⟩
+              · rw [h1, hst.out]; simp
+              · rw [h2, hlog]; simp
+              · intro hres; rw [hpe, h4 hres]
+              · refine Stamped.shift (fun j => ?_) segs ps 0 h5
+                simp only [List.take_succ_cons, List.flatten_cons, List.length_append, hpos, hnr]
+                simp only [Prod.mk.injEq]
+                omega
+
+/-- **(e), whole call.** `encrypt_chunks` decomposes into per-record pieces `ps` and log segments `segs`
+    (chronological; `Snk.log` is newest first): piece `i` is record `i` of the pure level (the final piece possibly
+    cut short), and every `write()` that contributed to it happened when exactly `s.nreads + i + 2` `read()` calls
+    had been made and the source stood after the first `i + 2` reads of the schedule. -/
+theorem encryptChunksIO_trace (s : Src) (k : Snk) :
+    ∃ (segs : List (List WLog)) (ps : List Bytes),
+      (encryptChunksIO A key aad cs s k).2.2.out = k.out ++ ps.flatten ∧
+      (encryptChunksIO A key aad cs s k).2.2.log = segs.reverse.flatten ++ k.log ∧
+      Pieces ps ((encryptCalls (Src.reads cs s)).map (recordOf A key aad)) ∧
+      ((encryptChunksIO A key aad cs s k).1 = .ok → ps = (encryptCalls (Src.reads cs s)).map (recordOf A key aad)) ∧
+      Stamped (fun i => (s.pos + (((Src.reads cs s).take (i+2)).flatten).length, s.nreads + i + 2)) 0 segs ps := by
+  cases hread : s.read cs with
+  | mk rr s' =>
+    cases rr with
+    | err => rw [encryptChunksIO_err A key aad cs hread]; exact ⟨[], [], by simp, by simp, trivial, by simp, trivial⟩
+    | interrupted => rw [encryptChunksIO_int A key aad cs hread]; exact ⟨[], [], by simp, by simp, trivial, by simp, trivial⟩
+    | got r =>
+      obtain ⟨j, _, _, _, _, hnr, hpos, _⟩ := read_got hread
+      rw [encryptChunksIO_got A key aad cs hread]
+      by_cases hr : r.length = 0
+      · have hb : (r.length == 0) = true := by simpa using hr
+        rw [reads_got_nil cs hread hr, hb]
+        have hcalls : (encryptCalls [r]).map (recordOf A key aad) = [record A key aad (be64 0) 0 true r] := by
+          simp [encryptCalls, encCalls, recordOf]
+        rw [hcalls]
+        cases hread1 : s'.read cs with
+        | mk rr1 s1 =>
+          cases rr1 with
+          | err => rw [encLoopIO_err A key aad cs hread1]; exact ⟨[], [], by simp, by simp, trivial, by simp, trivial⟩
+          | interrupted => rw [encLoopIO_int A key aad cs hread1]; exact ⟨[], [], by simp, by simp, trivial, by simp, trivial⟩
+          | got r1 =>
+            obtain ⟨j1, _, _, _, _, hnr1, hpos1, _⟩ := read_got hread1
+            by_cases hr1 : r1.length = 0
+            · rw [encLoopIO_last A key aad cs hread1 hr1]
+              obtain ⟨p, hst, hp, hok⟩ := recW_step A key aad 0 true r s1 k
+              obtain ⟨new, hlog, hat, hsum⟩ := hst.log
+              refine ⟨[new], [p], by simp [hst.out], by simp [hlog], Or.inr ⟨hp, rfl⟩, ?_, ?_⟩
+              · cases h : (recW A key aad 0 true r s1 k).1
+                · simp
+                · intro _; rw [hok h]
+              · refine ⟨fun e he => ?_, hsum, trivial⟩
+                have := hat e he
+                simp only at this ⊢
+                rw [this.1, this.2, hpos1, hnr1, hpos, hnr, hr1]
+                simp
+            · rw [encLoopIO_unexp A key aad cs hread1 hr1]
+              exact ⟨[], [], by simp, by simp, trivial, by simp, trivial⟩
+      · have hb : (r.length == 0) = false := by simpa using hr
+        have hm := read_got_measure hread hr
+        rw [reads_got_cons cs hread hr, hb]
+        simp only [encryptCalls, hb]
+        obtain ⟨segs, ps, h1, h2, h3, h4, h5⟩ := encLoopIO_trace A key aad cs
+          ((s'.inp.length + s'.script.length + 1) + 1) 0 r false s' k (s.inp.length + s.script.length) (by omega)
+        refine ⟨segs, ps, h1, h2, h3, h4, ?_⟩
+        have hfun : (fun i => (s.pos + (((r :: Src.readsOf cs (s.inp.length + s.script.length) s').take (i+2)).flatten).length,
+              s.nreads + i + 2)) =
+            (fun j => (s'.pos + (((Src.readsOf cs (s.inp.length + s.script.length) s').take (j+1)).flatten).length,
+              s'.nreads + j + 1)) := by
+          funext i
+          simp only [List.take_succ_cons, List.flatten_cons, List.length_append, hpos, hnr, Prod.mk.injEq]
+          omega
+        rw [hfun]
+        exact h5
+
+end trace
+
+/-! ### (b) in the "same source with its error events deleted" form -/
+
+/-- the source with the error events deleted from its script -/
+def Src.clean (s : Src) : Src :=
+  { s with script := s.script.filter (fun e => match e with | .data _ => true | _ => false) }
+
+theorem read_congr {s t : Src} (cs : Nat) (hi : s.inp = t.inp) (hs : s.script = t.script) :
+    (s.read cs).1 = (t.read cs).1 ∧ (s.read cs).2.inp = (t.read cs).2.inp ∧ (s.read cs).2.script = (t.read cs).2.script := by
+  unfold Src.read
+  rw [← hs, ← hi]
+  cases s.script with
+  | nil => simp
+  | cons e sc => cases e <;> simp
+
+/-- the schedule depends only on the remaining input and script -/
+theorem readsOf_congr (cs : Nat) : ∀ (f : Nat) (s t : Src), s.inp = t.inp → s.script = t.script →
+    Src.readsOf cs f s = Src.readsOf cs f t := by
+  intro f
+  induction f with
+  | zero => intro _ _ _ _; rfl
+  | succ f ih =>
+    intro s t hi hs
+    obtain ⟨h1, h2, h3⟩ := read_congr cs hi hs
+    unfold Src.readsOf
+    cases hsr : s.read cs with
+    | mk rs s' =>
+      cases htr : t.read cs with
+      | mk rt t' =>
+        rw [hsr, htr] at h1 h2 h3
+        simp only at h1 h2 h3
+        subst h1
+        cases rs with
+        | got r => simp only; rw [ih s' t' h2 h3]
+        | err => exact ih s' t' h2 h3
+        | interrupted => exact ih s' t' h2 h3
+
+theorem clean_script_length (s : Src) : (Src.clean s).script.length ≤ s.script.length :=
+  List.length_filter_le _ _
+
+theorem readsOf_clean (cs : Nat) : ∀ (f : Nat) (s : Src), s.inp.length + s.script.length + 1 ≤ f →
+    Src.readsOf cs f (Src.clean s) = Src.readsOf cs f s := by
+  intro f
+  induction f with
+  | zero => intro s h; omega
+  | succ f ih =>
+    intro s hf
+    cases hsc : s.script with
+    | nil =>
+      have : Src.clean s = s := by
+        cases s; simp only [Src.clean] at hsc ⊢; subst hsc; rfl
+      rw [this]
+    | cons e sc =>
+      cases e with
+      | data n =>
+        have hr : s.read cs = (.got (s.inp.take (min n cs)),
+            { inp := s.inp.drop (min n cs), script := sc, pos := s.pos + min (min n cs) s.inp.length, nreads := s.nreads + 1 }) := by
+          simp [Src.read, hsc]
+        have hrc : (Src.clean s).read cs = (.got (s.inp.take (min n cs)),
+            Src.clean { inp := s.inp.drop (min n cs), script := sc, pos := s.pos + min (min n cs) s.inp.length, nreads := s.nreads + 1 }) := by
+          simp [Src.read, Src.clean, hsc]
+        unfold Src.readsOf
+        rw [hr, hrc]
+        simp only
+        split
+        · rfl
+        · rename_i hne
+          have hm := read_got_measure hr hne
+          rw [ih _ (by simp only at hm ⊢; omega)]
+      | errOther =>
+        have hr : s.read cs = (.err, { s with script := sc, nreads := s.nreads + 1 }) := by
+          simp [Src.read, hsc]
+        have hcl : (Src.clean s).inp = (Src.clean { s with script := sc, nreads := s.nreads + 1 }).inp ∧
+            (Src.clean s).script = (Src.clean { s with script := sc, nreads := s.nreads + 1 }).script := by
+          simp [Src.clean, hsc]
+        have hlen := clean_script_length { s with script := sc, nreads := s.nreads + 1 }
+        have hci : (Src.clean { s with script := sc, nreads := s.nreads + 1 }).inp = s.inp := rfl
+        rw [hsc] at hf; simp only [List.length_cons] at hf
+        simp only at hlen
+        rw [readsOf_congr cs (f+1) _ _ hcl.1 hcl.2,
+          readsOf_fuel cs (f+1) f _ (by rw [hci]; omega) (by rw [hci]; omega), ih _ (by simp only; omega)]
+        conv => rhs; unfold Src.readsOf; rw [hr]
+      | errInterrupted =>
+        have hr : s.read cs = (.interrupted, { s with script := sc, nreads := s.nreads + 1 }) := by
+          simp [Src.read, hsc]
+        have hcl : (Src.clean s).inp = (Src.clean { s with script := sc, nreads := s.nreads + 1 }).inp ∧
+            (Src.clean s).script = (Src.clean { s with script := sc, nreads := s.nreads + 1 }).script := by
+          simp [Src.clean, hsc]
+        have hlen := clean_script_length { s with script := sc, nreads := s.nreads + 1 }
+        have hci : (Src.clean { s with script := sc, nreads := s.nreads + 1 }).inp = s.inp := rfl
+        rw [hsc] at hf; simp only [List.length_cons] at hf
+        simp only at hlen
+        rw [readsOf_congr cs (f+1) _ _ hcl.1 hcl.2,
+          readsOf_fuel cs (f+1) f _ (by rw [hci]; omega) (by rw [hci]; omega), ih _ (by simp only; omega)]
+        conv => rhs; unfold Src.readsOf; rw [hr]
+
+/-- deleting the error events does not change the read schedule -/
+theorem reads_clean (cs : Nat) (s : Src) : Src.reads cs (Src.clean s) = Src.reads cs s := by
+  have hlen := clean_script_length s
+  have hci : (Src.clean s).inp = s.inp := rfl
+  unfold Src.reads Src.rfuel
+  rw [readsOf_fuel cs _ (s.inp.length + s.script.length + 1) (Src.clean s) (Nat.le_refl _) (by rw [hci]; omega)]
+  exact readsOf_clean cs _ s (Nat.le_refl _)
+
+/-- **(b), literal form.** For every source and sink script: what the call appends is a prefix of what the same
+    call appends when the source's error events are deleted and the sink is benign (any such sink `k0`), provided the
+    remaining read events are conforming; and it is all of it when the call reports success. -/
+theorem encryptChunksIO_prefix_clean (A : Aead) (key aad : Bytes) (cs : Nat) (hcs : 0 < cs) (s : Src) (k k0 : Snk)
+    (hclean : Src.faultFree (Src.clean s)) (hk0 : Snk.benign k0) :
+    ∃ p q, (encryptChunksIO A key aad cs s k).2.2.out = k.out ++ p ∧
+      (encryptChunksIO A key aad cs (Src.clean s) k0).1 = .ok ∧
+      (encryptChunksIO A key aad cs (Src.clean s) k0).2.2.out = k0.out ++ q ∧
+      p <+: q ∧ ((encryptChunksIO A key aad cs s k).1 = .ok → p = q) := by
+  obtain ⟨p, h1, h2, h3⟩ := encryptChunksIO_prefix A key aad cs s k
+  obtain ⟨g1, g2⟩ := encryptChunksIO_faultFree A key aad cs hcs (Src.clean s) k0 hclean hk0
+  rw [reads_clean] at g1 g2
+  rw [encryptChunks_reads] at g1
+  exact ⟨p, _, h1, g1, g2, h2, h3⟩
+
+/-! ### header record, then the chunk loop: the common shape of `key_encrypt` and `pass_encrypt` -/
+
+/-- write the file header as one record at the initial source state, then run `encrypt_chunks` -/
+def hdrThenChunks (A : Aead) (key aad : Bytes) (cs : Nat) (hdr body : Bytes) (src : Src) (k : Snk) : Res × Src × Snk :=
+  if (writeRecord k (src.pos, src.nreads) hdr body).1 then
+    encryptChunksIO A key aad cs src (writeRecord k (src.pos, src.nreads) hdr body).2
+  else (.ioWrite, src, (writeRecord k (src.pos, src.nreads) hdr body).2)
+
+open Generated in
+theorem keyEncryptIO_error (P : Prims) (s spk rs e epk pk : Bytes) (src : Src) (k : Snk) {err : Noise.Err}
+    (h : Noise.writeMessage P encPrologue s spk rs e epk pk = .error err) :
+    keyEncryptIO P s spk rs e epk pk src k = (.other, src, k) := by
+  simp only [keyEncryptIO, h]
+
+open Generated in
+theorem keyEncryptIO_ok (P : Prims) (s spk rs e epk pk : Bytes) (src : Src) (k : Snk) {msg hh : Bytes}
+    (h : Noise.writeMessage P encPrologue s spk rs e epk pk = .ok (msg, hh)) :
+    keyEncryptIO P s spk rs e epk pk src k =
+      hdrThenChunks P.aead (P.hkdfFile pk hh) [] chunkSize encPrologue msg src k := by
+  simp only [keyEncryptIO, h, hdrThenChunks]
+  generalize writeRecord k _ _ _ = w
+  obtain ⟨b, k2⟩ := w
+  cases b <;> simp
+
+open Generated in
+theorem keyEncrypt_error (P : Prims) (s spk rs e epk pk : Bytes) (reads : List Bytes) {err : Noise.Err}
+    (h : Noise.writeMessage P encPrologue s spk rs e epk pk = .error err) :
+    keyEncrypt P s spk rs e epk pk reads = ([], .other) := by
+  simp only [keyEncrypt, h]
+
+open Generated in
+theorem keyEncrypt_ok (P : Prims) (s spk rs e epk pk : Bytes) (reads : List Bytes) {msg hh : Bytes}
+    (h : Noise.writeMessage P encPrologue s spk rs e epk pk = .ok (msg, hh)) :
+    keyEncrypt P s spk rs e epk pk reads =
+      (encPrologue ++ msg ++ (encryptChunks P.aead (P.hkdfFile pk hh) [] reads).1,
+       (encryptChunks P.aead (P.hkdfFile pk hh) [] reads).2) := by
+  simp only [keyEncrypt, h]
+
+open Generated in
+theorem passEncryptIO_eq (P : Prims) (pw salt : Bytes) (src : Src) (k : Snk) :
+    passEncryptIO P pw salt src k =
+      hdrThenChunks P.aead (P.kdf pw salt) encPassMagic chunkSize encPassMagic salt src k := by
+  simp only [passEncryptIO, hdrThenChunks]
+  generalize writeRecord k _ _ _ = w
+  obtain ⟨b, k2⟩ := w
+  cases b <;> simp
+
+open Generated in
+theorem passEncrypt_eq (P : Prims) (pw salt : Bytes) (reads : List Bytes) :
+    passEncrypt P pw salt reads =
+      (encPassMagic ++ salt ++ (encryptChunks P.aead (P.kdf pw salt) encPassMagic reads).1,
+       (encryptChunks P.aead (P.kdf pw salt) encPassMagic reads).2) := by
+  simp only [passEncrypt]
+
+section htc
+variable (A : Aead) (key aad : Bytes) (cs : Nat) (hdr body : Bytes)
+
+theorem htc_res (src : Src) (k : Snk) :
+    (hdrThenChunks A key aad cs hdr body src k).1 = .ok ∨ (hdrThenChunks A key aad cs hdr body src k).1 = .ioRead ∨
+    (hdrThenChunks A key aad cs hdr body src k).1 = .ioWrite ∨
+    (hdrThenChunks A key aad cs hdr body src k).1 = .unexpectedData := by
+  unfold hdrThenChunks
+  split
+  · exact encryptChunksIO_res A key aad cs _ _
+  · simp
+
+theorem htc_ioRead (src : Src) (k : Snk) (h : (hdrThenChunks A key aad cs hdr body src k).1 = .ioRead) :
+    Src.hasErr src := by
+  unfold hdrThenChunks at h
+  split at h
+  · exact encryptChunksIO_ioRead A key aad cs _ _ h
+  · simp at h
+
+theorem htc_ioWrite (src : Src) (k : Snk) (h : (hdrThenChunks A key aad cs hdr body src k).1 = .ioWrite) :
+    ¬ Snk.benign k := by
+  intro hb
+  have hw := writeRecord_benign (src.pos, src.nreads) k hdr body hb
+  obtain ⟨p, hst, _, _⟩ := writeRecord_step (src.pos, src.nreads) k hdr body
+  unfold hdrThenChunks at h
+  rw [if_pos hw] at h
+  exact encryptChunksIO_ioWrite A key aad cs _ _ h (hst.benign hb)
+
+theorem htc_no_unexpected (hcs : 0 < cs) (src : Src) (k : Snk) (hff : Src.faultFree src) :
+    (hdrThenChunks A key aad cs hdr body src k).1 ≠ .unexpectedData := by
+  unfold hdrThenChunks
+  split
+  · exact encryptChunksIO_no_unexpected A key aad cs hcs _ _ hff
+  · simp
+
+theorem htc_unexpected (src : Src) (k : Snk) (h : (hdrThenChunks A key aad cs hdr body src k).1 = .unexpectedData) :
+    ∃ r0 s1 r s2, src.read cs = (.got r0, s1) ∧ r0.length = 0 ∧ s1.read cs = (.got r, s2) ∧ r.length ≠ 0 := by
+  unfold hdrThenChunks at h
+  split at h
+  · obtain ⟨r0, s1, r, s2, h1, h2, h3, h4, _⟩ := encryptChunksIO_unexpected A key aad cs _ _ h
+    exact ⟨r0, s1, r, s2, h1, h2, h3, h4⟩
+  · simp at h
+
+theorem htc_prefix (src : Src) (k : Snk) :
+    ∃ p, (hdrThenChunks A key aad cs hdr body src k).2.2.out = k.out ++ p ∧
+      p <+: hdr ++ body ++ (encryptChunks A key aad (Src.reads cs src)).1 ∧
+      ((hdrThenChunks A key aad cs hdr body src k).1 = .ok →
+        p = hdr ++ body ++ (encryptChunks A key aad (Src.reads cs src)).1) := by
+  obtain ⟨p, hst, hp, hok⟩ := writeRecord_step (src.pos, src.nreads) k hdr body
+  unfold hdrThenChunks
+  split
+  · rename_i hw
+    obtain ⟨q, hq1, hq2, hq3⟩ := encryptChunksIO_prefix A key aad cs src (writeRecord k (src.pos, src.nreads) hdr body).2
+    have hpe := hok hw
+    refine ⟨p ++ q, by rw [hq1, hst.out, List.append_assoc], ?_, ?_⟩
+    · rw [hpe]; exact (List.prefix_append_right_inj _).mpr hq2
+    · intro hres; rw [hpe, hq3 hres]
+  · exact ⟨p, hst.out, List.IsPrefix.trans hp (List.prefix_append _ _), by simp⟩
+
+theorem htc_faultFree (hcs : 0 < cs) (src : Src) (k : Snk) (hs : Src.faultFree src) (hk : Snk.benign k) :
+    (hdrThenChunks A key aad cs hdr body src k).1 = (encryptChunks A key aad (Src.reads cs src)).2 ∧
+    (hdrThenChunks A key aad cs hdr body src k).2.2.out =
+      k.out ++ (hdr ++ body ++ (encryptChunks A key aad (Src.reads cs src)).1) := by
+  have hw := writeRecord_benign (src.pos, src.nreads) k hdr body hk
+  obtain ⟨p, hst, _, hok⟩ := writeRecord_step (src.pos, src.nreads) k hdr body
+  obtain ⟨h1, h2⟩ := encryptChunksIO_faultFree A key aad cs hcs src _ hs (hst.benign hk)
+  unfold hdrThenChunks
+  rw [if_pos hw]
+  refine ⟨h1, ?_⟩
+  rw [h2, hst.out, hok hw]
+  simp only [List.append_assoc]
+
+/-- (e) for the whole file: the header is written before the first `read()`, then the per-record trace -/
+theorem htc_trace (src : Src) (k : Snk) :
+    ∃ (hseg : List WLog) (hp : Bytes) (segs : List (List WLog)) (ps : List Bytes),
+      (hdrThenChunks A key aad cs hdr body src k).2.2.out = k.out ++ hp ++ ps.flatten ∧
+      (hdrThenChunks A key aad cs hdr body src k).2.2.log = segs.reverse.flatten ++ hseg ++ k.log ∧
+      hp <+: hdr ++ body ∧ (ps ≠ [] → hp = hdr ++ body) ∧
+      (∀ e ∈ hseg, e.srcPos = src.pos ∧ e.srcReads = src.nreads) ∧ (hseg.map (·.n)).sum = hp.length ∧
+      Pieces ps ((encryptCalls (Src.reads cs src)).map (recordOf A key aad)) ∧
+      ((hdrThenChunks A key aad cs hdr body src k).1 = .ok →
+        hp = hdr ++ body ∧ ps = (encryptCalls (Src.reads cs src)).map (recordOf A key aad)) ∧
+      Stamped (fun i => (src.pos + (((Src.reads cs src).take (i+2)).flatten).length, src.nreads + i + 2)) 0 segs ps := by
+  obtain ⟨p, hst, hp, hok⟩ := writeRecord_step (src.pos, src.nreads) k hdr body
+  obtain ⟨new, hlog, hat, hsum⟩ := hst.log
+  unfold hdrThenChunks
+  split
+  · rename_i hw
+    obtain ⟨segs, ps, h1, h2, h3, h4, h5⟩ :=
+      encryptChunksIO_trace A key aad cs src (writeRecord k (src.pos, src.nreads) hdr body).2
+    have hpe := hok hw
+    refine ⟨new, p, segs, ps, ?_, ?_, hp, fun _ => hpe, hat, hsum, h3, fun hres => ⟨hpe, h4 hres⟩, h5⟩
+    · rw [h1, hst.out]
+    · rw [h2, hlog, List.append_assoc]
+  · exact ⟨new, p, [], [], by simp [hst.out], by simp [hlog], hp, by simp, hat, hsum, trivial, by simp, trivial⟩
+
+end htc
+
+/-- (a) corollary for the whole file -/
+theorem htc_length (A : Aead) (hA : A.Lawful) (key aad : Bytes) (hkey : key.length = 32) (cs : Nat) (hcs : 0 < cs)
+    (hdr body : Bytes) (src : Src) (k : Snk) (hs : Src.faultFree src) (hk : Snk.benign k) :
+    (hdrThenChunks A key aad cs hdr body src k).2.2.out.length =
+      k.out.length + (hdr.length + body.length) + 32 * max 1 (numNonEmpty (Src.reads cs src)) + src.inp.length := by
+  rw [(htc_faultFree A key aad cs hdr body hcs src k hs hk).2, encryptChunks_reads]
+  simp only [List.length_append]
+  rw [serialize_length A hA key aad hkey be64 be64_length, fileChunks_join _ (reads_wf cs src),
+    fileChunks_length _ (reads_wf cs src), reads_flatten cs hcs src hs]
+  omega
+
+/-- (e) in words: while record `i` is being written exactly `i + 2` reads have been made, and the plaintext read but
+    not yet covered by records `< i` is at most two buffers (`prev` and the look-ahead read) -/
+theorem Stamped.window (cs pos nr : Nat) (reads : List Bytes) (hle : ∀ r ∈ reads, r.length ≤ cs)
+    (segs : List (List WLog)) (ps : List Bytes)
+    (h : Stamped (fun i => (pos + ((reads.take (i+2)).flatten).length, nr + i + 2)) 0 segs ps) :
+    ∀ (i : Nat) (hi : i < segs.length), ∀ e ∈ segs[i],
+      e.srcReads = nr + i + 2 ∧
+      pos + ((reads.take i).flatten).length ≤ e.srcPos ∧
+      e.srcPos ≤ pos + ((reads.take i).flatten).length + 2 * cs := by
+  intro i hi e he
+  have hlen := Stamped.length_eq segs ps 0 h
+  obtain ⟨hg, _⟩ := Stamped.get segs ps 0 h i hi (by omega)
+  obtain ⟨h1, h2⟩ := hg e he
+  simp only [Nat.zero_add] at h1 h2
+  have hw := take_flatten_window cs reads i hle
+  have hmono : ((reads.take i).flatten).length ≤ ((reads.take (i+2)).flatten).length := by
+    have : reads.take i = (reads.take (i+2)).take i := by rw [List.take_take]; congr 1; omega
+    rw [this]
+    conv => rhs; rw [← List.take_append_drop i (reads.take (i+2))]
+    simp only [List.flatten_append, List.length_append]
+    omega
+  refine ⟨h2, ?_, ?_⟩ <;> omega
 
 end Kestrel.EncIO
